@@ -3,27 +3,9 @@
  "property": "C16",
  "standin": "B-str",
  "bound": "str/bytes over a 12-symbol adversarial alphabet: all strings of length <= 3 (quick) / <= 5 (thorough) unformatted; hand-picked + 400 (quick) / 20 000 (thorough) seeded random strings of length <= 12 top-level and inside list/dict/tuple through black and format_command=cat; thorough adds every non-surrogate code point as a 1-char string",
- "input": "a-shape:top/none: '\\n\\n'",
- "detail": "29 failing cases without a known finding in this run, 26 distinct (value, symptom) groups, 20 listed. literal spans several lines but is not triple quoted with escaped line ends: '\"\"\"\\n\\n\"\"\"'\nsame value, same symptom in 2 checks: a-shape:top/none"
+ "input": "14 of 24 tasks",
+ "detail": "time budget used up before all tasks finished (or a worker died); the bound stated for this stand-in was NOT covered"
 }
 """
 
-# run with: /verif/.venv/bin/python <this file>      (inline_snapshot is the editable install of /repo)
-import ast, os, tempfile, tokenize
-from pathlib import Path
-from executing import Source
-from inline_snapshot import _config
-from inline_snapshot._format import format_code
-from inline_snapshot._source_file import SourceFile
-from inline_snapshot._utils import value_to_token
-
-value = '\n\n'
-d = tempfile.mkdtemp()
-p = os.path.join(d, "snap.py")
-open(p, "w").write("from inline_snapshot import snapshot\n\nassert 1 == snapshot()\n")
-sf = SourceFile(Source.for_filename(p))
-code = tokenize.untokenize(value_to_token(value))
-print("code :", ascii(code))
-lit = code
-assert "\n" not in lit or (lit[:3] in ('"""', "'''") and lit[3:5] == "\\\n" and lit[-3:] == lit[:3]), "multi-line literal is not triple quoted with escaped line ends"
-
+raise AssertionError('B-str did not finish inside its time budget')
